@@ -93,6 +93,53 @@ def cc_program(adapter, exit_stmt, pos):
     return src
 
 
+# caller-side item names a macro might use for its own generic parameters / helper items (neither is hygienic)
+HYGIENE_NAMES = ["CAP", "Ret", "N", "LEN", "T", "U", "I", "Item", "Iter", "ITER", "OUT", "ARR", "Array", "F", "Func", "Self_", "LENGTH", "COUNT", "Acc", "R", "C", "B", "X", "Y", "__N"]
+
+
+def hygiene_program(name):
+    return ("#![allow(unused, non_upper_case_globals, non_camel_case_types, clippy::all)]\n"
+            "const %(n)s: usize = 4;\n"
+            "mod ty { pub type %(n)s = u16; }\n"
+            "const H0: [usize; 3] = konst::iter::collect_const!(usize => 1..4usize, map(|x| x * %(n)s));\n"
+            "const H1: &[usize] = &konst::iter::collect_const!(usize => 0..10usize, map(|x| x * x), take(%(n)s));\n"
+            "const H2: &[usize] = &konst::iter::collect_const!(usize => 0..%(n)s);\n"
+            "const H3: &[ty::%(n)s] = &konst::iter::collect_const!(ty::%(n)s => &[1u16, 2, 3], copied(), filter(|x| *x as usize != %(n)s - 2));\n"
+            "fn main() {\n"
+            "    let w0: Vec<usize> = (1..4usize).map(|x| x * %(n)s).collect();\n"
+            "    let w1: Vec<usize> = (0..10usize).map(|x| x * x).take(%(n)s).collect();\n"
+            "    let w2: Vec<usize> = (0..%(n)s).collect();\n"
+            "    let w3: Vec<u16> = [1u16, 2, 3].iter().copied().filter(|x| *x as usize != %(n)s - 2).collect();\n"
+            "    let a: [usize; 2] = konst::array::map!([1usize, 2], |x| x + %(n)s);\n"
+            "    let b: [usize; 2] = konst::array::from_fn!(|i| i * %(n)s);\n"
+            "    let c: [usize; 2] = konst::array::map_!([1usize, 2], |x| x + %(n)s);\n"
+            "    let d: [usize; 2] = konst::array::from_fn_!(|i| i * %(n)s);\n"
+            "    let ok = H0[..] == w0[..] && H1 == &w1[..] && H2 == &w2[..] && H3 == &w3[..] && a == [5, 6] && b == [0, 4] && c == [5, 6] && d == [0, 4];\n"
+            "    println!(\"HYG\\t{}\\t{:?} {:?} {:?} {:?} {:?} {:?} {:?} {:?}\", ok, H0, H1, H2, H3, a, b, c, d);\n"
+            "}\n") % {"n": name}
+
+
+def run_hygiene(cx, out, hist):
+    srcs = [cx.write("c11_hyg_%s.rs" % n, hygiene_program(n)) for n in HYGIENE_NAMES]
+    comp = cx.compile_many(srcs)
+    runnable = []
+    for n, src, (rc, se, outp) in zip(HYGIENE_NAMES, srcs, comp):
+        if rc is None:
+            raise kv.Inconclusive("watchdog: rustc did not finish on %s" % src)
+        if rc != 0:
+            out.fail("C11:caller-item-name-captured:compile-error", "collect_const!/map!/from_fn!", "caller items named %s used inside the macro arguments (%s)" % (n, src), first_error(se, 3)[:300], "the arrays std's iterators / <[T; N]>::map produce", "rustc-const-eval", cmd="rustc " + src, source=src)
+        else:
+            runnable.append((n, src, outp))
+    for (n, src, b), (rc, so, se) in zip(runnable, cx.run_many([b for _, _, b in runnable])):
+        m = re.search(r"HYG\t(\w+)\t(.*)", so or "")
+        if rc != 0 or not m:
+            raise kv.Inconclusive("generated program %s exited with %s: %s" % (b, rc, (se or "")[-300:]))
+        if m.group(1) != "true":
+            out.fail("C11:caller-item-name-captured", "collect_const!/map!/from_fn!", "caller items named %s used inside the macro arguments" % n, m.group(2)[:300], "[4, 8, 12] [0, 1, 4, 9] [0, 1, 2, 3] [1, 3] [5, 6] [0, 4] [5, 6] [0, 4]", "generated-program", cmd=b, source=src)
+    hist["c11prog/caller-item-names"] = len(HYGIENE_NAMES)
+    return len(HYGIENE_NAMES)
+
+
 def run(out, tier, seed):
     cx = Ctx("c11")
     progs = []
@@ -160,6 +207,7 @@ def run(out, tier, seed):
             # the const evaluator validated the final value (no unwritten element can survive it); record what it was
             if len(samples) < 8 and m:
                 samples.append("collect_const!(.., %s with `%s` at x == %d) compiled to %s" % (adapter, EXITS[ename], pos, m.group(1)[:60]))
+    evals += run_hygiene(cx, out, hist)
     out.add_counts("generated-programs", evals, "c11-programs", nontrivial, samples,
                    rule="one evaluation = one hostile-closure program (macro x early exit x position) compiled and, if it compiles, run: outcome classes compile-error / panic / loop (in-closure logical-step watchdog) / returned (non-local exit) are admissible, `array` after the exit fired is the refuting class; collect_const! programs are monitored by rustc's const evaluator (an unwritten element in the final value cannot pass validation); distinct_nontrivial = number of distinct programs that compiled and ran",
                    exhaustive="{map!, map!(-> Ret), map_!, from_fn!, from_fn_!, from_fn_!([T;N] => typed closure)} x {break, continue, return, break 'outer, continue 'outer, ?, panic!} x positions {first, middle, last of 3; only element of 1; last of 2}; collect_const! with {map, filter, filter_map, take_while, flat_map} x {break, continue, panic!} x 3 positions",
